@@ -178,7 +178,7 @@ def h_named_rejections(cls: int, which: int, ai: int, mi: int, fi: int,
                 [ChangeField(name, 'a', initial=None, max_length=length)],
                 [DeleteField(name, 'b')],
                 [DeleteModel(name)],
-                [ChangeField(name, 'b', initial=initial, null=False)]][which]
+                [ChangeField(name, 'b', initial=initial, null=False)]][hx.pick(range(5), which)]
     elif cls == 2:
         fname = FIELD_NAMES[fi]
         if fname in ('a', 'b', 'id'):
@@ -187,19 +187,19 @@ def h_named_rejections(cls: int, which: int, ai: int, mi: int, fi: int,
                 [DeleteField('M', fname)],
                 [ChangeField('M', fname, initial=initial, null=False)],
                 [ChangeField('M', fname, initial=None, null=True)],
-                [DeleteField('M', 'b'), DeleteField('M', 'b')]][which]
+                [DeleteField('M', 'b'), DeleteField('M', 'b')]][hx.pick(range(5), which)]
     elif cls == 3:
         fname = FIELD_NAMES[fi]
         if fname not in ('a', 'b', 'id'):
             return hx.verdict(True, False)
-        muts = [AddField('M', fname, [models.IntegerField, models.CharField, models.BooleanField,
-                                      models.IntegerField, models.IntegerField][which],
+        muts = [AddField('M', fname, hx.pick([models.IntegerField, models.CharField, models.BooleanField,
+                                               models.IntegerField, models.IntegerField], which),
                          initial=initial, max_length=length)]
     elif cls == 4:
         muts = [DeleteField(['M', 'N'][which % 2], 'id')]
     elif cls == 5:
-        ft = [models.IntegerField, models.CharField, models.BooleanField, models.DecimalField,
-              models.ForeignKey][which]
+        ft = hx.pick([models.IntegerField, models.CharField, models.BooleanField, models.DecimalField,
+                      models.ForeignKey], which)
         attrs = {}
         if which == 4:
             attrs['related_model'] = 'app.N'
